@@ -12,7 +12,7 @@ use serde_json::{json, Value};
 
 use rust_dsymbols::covers::{covers, finite_universal_cover};
 use rust_dsymbols::delaney2d;
-use rust_dsymbols::delaney3d::pseudo_toroidal_cover;
+use rust_dsymbols::delaney3d::{orbifold_graph, pseudo_toroidal_cover};
 use rust_dsymbols::derived::{canonical, minimal_image, subsymbol};
 use rust_dsymbols::dsets::{DSet, SimpleDSet};
 use rust_dsymbols::dsyms::PartialDSym;
@@ -228,6 +228,9 @@ fn hooks_end<T>(value: T) -> RunOut<T> {
 pub enum PreInput {
     Euclid(PartialDSym),
     Simplify(PartialDSym),
+    /// other public functions of the library on one symbol; the flag says
+    /// whether the expensive cover builders are included (corpus literals only)
+    Battery(PartialDSym, bool),
 }
 
 /// Execute the explicit call history on the current (run) thread.
@@ -240,7 +243,45 @@ fn run_pre(pre: &[PreInput]) {
             PreInput::Simplify(d) => {
                 let _ = simplify(d);
             }
+            PreInput::Battery(s, with_covers) => battery(s, *with_covers),
         }));
+    }
+}
+
+/// Earlier calls of OTHER public functions (results ignored): whatever state
+/// they might leave behind on the thread or in the process is part of the
+/// call history of the operation under test.
+fn battery(s: &PartialDSym, with_covers: bool) {
+    fn quiet<F: FnOnce()>(f: F) {
+        let _ = std::panic::catch_unwind(std::panic::AssertUnwindSafe(f));
+    }
+    quiet(|| {
+        let g = fundamental_group(s);
+        let _ = g.is_free();
+        let _ = abelian_invariants(g.nr_generators(), &g.relators);
+    });
+    quiet(|| {
+        let _ = orbifold_graph(s);
+    });
+    quiet(|| {
+        let _ = rust_dsymbols::derived::oriented_cover(s);
+    });
+    quiet(|| {
+        let _ = canonical(s);
+    });
+    quiet(|| {
+        let _ = minimal_image(s);
+    });
+    quiet(|| {
+        let _ = rust_dsymbols::derived::dual(s);
+    });
+    if with_covers {
+        quiet(|| {
+            let _ = covers(s, 2);
+        });
+        quiet(|| {
+            let _ = pseudo_toroidal_cover(s);
+        });
     }
 }
 
@@ -480,10 +521,10 @@ impl Executor {
         for p in &spec.pre {
             let s = match Sym::parse(&p.base) {
                 Ok(s) if s.validate().is_ok() => {
-                    if p.dual {
-                        s.dual()
-                    } else {
-                        s
+                    let s = if p.dual { s.dual() } else { s };
+                    match p.shuffle {
+                        Some(seed) => s.shuffled(seed),
+                        None => s,
                     }
                 }
                 _ => continue,
@@ -494,6 +535,13 @@ impl Executor {
                     if let Some(c) = self.ptc(&s) {
                         out.push(PreInput::Simplify(c.to_partial()));
                     }
+                }
+                // the cover builders enumerate subgroups of index up to 48 or
+                // more: only for symbols that pass the precondition and are
+                // small (the planner draws battery symbols from the literals)
+                Op::Battery => {
+                    let ok = s.n <= 24 && self.precondition(&s).is_ok();
+                    out.push(PreInput::Battery(s.to_partial(), ok));
                 }
                 _ => out.push(PreInput::Simplify(s.to_partial())),
             }
@@ -514,6 +562,7 @@ impl Executor {
         // counted. Panics of the operation itself are caught on the run thread.
         let r = std::panic::catch_unwind(std::panic::AssertUnwindSafe(|| match spec.op {
             Op::IsEuclidean => self.run_c17(spec, &mut rec),
+            Op::Battery => Err("battery_is_an_earlier_call_only".to_string()),
             _ => self.run_c16(spec, &mut rec),
         }));
         match r {
@@ -740,7 +789,7 @@ impl Executor {
                 self.fuc_cache[&key].clone()
             }
             Op::SimplifySelf => s.clone(),
-            Op::IsEuclidean => unreachable!(),
+            Op::IsEuclidean | Op::Battery => unreachable!(),
         };
         let inv_key = x0.to_text();
         if spec.expect == Expect::Torus {
